@@ -440,8 +440,10 @@ spif_bool_t
 spif_str_clear(spif_str_t self, spif_char_t c)
 {
     ASSERT_RVAL(!SPIF_STR_ISNULL(self), FALSE);
-    memset(self->s, c, self->size);
-    self->s[self->len] = 0;
+    if (self->s != (spif_charptr_t) NULL) {
+        memset(self->s, c, self->size);
+        self->s[self->len] = 0;
+    }
     return TRUE;
 }
 
@@ -471,7 +473,7 @@ spif_str_downcase(spif_str_t self)
     spif_charptr_t tmp;
 
     ASSERT_RVAL(!SPIF_STR_ISNULL(self), FALSE);
-    for (tmp = self->s; *tmp; tmp++) {
+    for (tmp = self->s; tmp && *tmp; tmp++) {
         *tmp = tolower(*tmp);
     }
     return TRUE;
@@ -840,7 +842,7 @@ spif_str_upcase(spif_str_t self)
     spif_charptr_t tmp;
 
     ASSERT_RVAL(!SPIF_STR_ISNULL(self), FALSE);
-    for (tmp = self->s; *tmp; tmp++) {
+    for (tmp = self->s; tmp && *tmp; tmp++) {
         *tmp = toupper(*tmp);
     }
     return TRUE;
